@@ -123,6 +123,11 @@ def _post_cancel(cls_name):
             cl.append(("... in particular this call itself never cancels the future after the underlying future has refused", "PC",
                        z3.Implies(z3.Not(dcalls[0].ret), z3.BoolVal(len(mine) == 0)) if dcalls[0].ret is not None else True, ["C06", "C02"]))
         seen_cancelled = any(a == "self.cancelled()" and b for a, b in st.decisions)
+        seen_done = any(a == "self.done()" and b for a, b in st.decisions)
+        if cls_name in ("MapFuture", "FlatMapFuture", "ProxyFuture") and not dcalls and not seen_cancelled and not seen_done:
+            cl.append(("C06 forwarding: a pending future withholds the cancel request from its underlying future only when it has none (whatever that future "
+                       "says about running(): a library future that reports running may still honour cancel())", "PC",
+                       z3.BoolVal(any(a == "self._delegate" and not b for a, b in st.decisions)), ["C06"]))
         if cls_name in ("MapFuture", "FlatMapFuture", "ProxyFuture") and not dcalls and not seen_cancelled:
             cl.append(("with no pending delegate to ask, a pending future cannot be cancelled (the work is already being delivered)", "PC",
                        z3.Implies(z3.Not(ctx["cancelled0"]), z3.Not(rb)), ["C06", "C13"]))
@@ -132,6 +137,23 @@ def _post_cancel(cls_name):
 
 UNITS = [Unit("_Future.cancel[%s]" % c, "common._Future.cancel", ["C02", "C06", "C04", "C13", "C18", "C03"],
               _setup_cancel(c), _post_cancel(c), cfg=_cfg_cancel, self_cls=c) for c in FUTURE_CLASSES]
+# Defence in depth, outside A-EXC / the FUT contract: should the underlying cancel RAISE (a cancel function raising a BaseException, a foreign
+# future whose cancel() fails), the exception may propagate, but the cancel-in-progress counter must be restored - otherwise every later cancel()
+# of this future believes it is nested and never dispatches the done-callbacks (monitor invariant of the future's lock, proved at its release).
+def _cfg_cancel_raises():
+    cfg = _cfg_cancel()
+    cfg.contracts["more_executors._impl.retry.RetryExecutor._cancel"] = RecordCall(ret_fn=fresh_bool, may_raise="RuntimeError")
+    return cfg
+
+
+def _post_cancel_raises(engine, st, ctx, out):
+    # nothing beyond the monitor invariant `_me_cancelling = 0 whenever the lock is free`, which the engine obliges at the release of the
+    # future's lock on every path - the raising one included
+    return []
+
+
+UNITS.append(Unit("_Future.cancel[RetryFuture, underlying cancel may raise]", "common._Future.cancel", ["C02", "C04", "C08", "C18", "C20"],
+                  _setup_cancel("RetryFuture"), _post_cancel_raises, cfg=_cfg_cancel_raises, self_cls="RetryFuture"))
 UNITS += [Unit("_Future.cancel[%s, nested in own cancel()]" % c, "common._Future.cancel", ["C02", "C04", "C06", "C03", "C13", "C18"],
                _setup_cancel(c, True), _post_cancel(c), cfg=_cfg_cancel, self_cls=c) for c in ("MapFuture", "RetryFuture", "PollFuture")]
 
@@ -485,6 +507,14 @@ def _post_copy_exc(engine, st, ctx, out):
     return cl
 
 
+def _cfg_copy_exc_falsy():
+    cfg = _cfg_copy_exc()
+    cfg.falsy_exceptions = True        # an exception class with __len__ / __bool__ (an aggregate error with no sub-errors) is falsy
+    return cfg
+
+
+UNITS.append(Unit("copy_exception[exception given, a falsy exception object]", "common.copy_exception", ["C13", "C01", "C14", "C15", "C16", "C18"],
+                  _setup_copy_exc(True, False), _post_copy_exc, cfg=_cfg_copy_exc_falsy))
 for _ex, _h in ((True, True), (True, False), (False, True)):
     UNITS.append(Unit("copy_exception[%s, %s]" % ("exception given" if _ex else "no exception given", "while another exception is being handled" if (_h and _ex) else ("inside an except block" if _h else "no exception being handled")),
                       "common.copy_exception", ["C13", "C01", "C14", "C15", "C16", "C18"], _setup_copy_exc(_ex, _h), _post_copy_exc, cfg=_cfg_copy_exc))
